@@ -3,7 +3,8 @@
 Decided: who may touch the representation (R1), a merge-by-start loop keeps the farther end
 (R2, sibling rule over from_ranges and ranges_union), empty/inverted inputs are dropped first
 (R3), an in-place merge re-examines the merged element (R4), hole filling extends closed
-periods and closes the day at 24:00 (R5), day iteration cannot yield an empty range (R6).
+periods and closes the day at 24:00 (R5), day iteration cannot yield an empty range (R6), ranges
+enter a schedule only through from_ranges / insert (R7).
 Not decided: 'most recently added wins', coalescing in insert, exact tiling - values.
 """
 
@@ -185,6 +186,33 @@ def run(ctx, prog, res):
     ok = any(d["op"] == "Lt" and (flow.nearest_field(py, d["a"]) or [0, 0, 0])[2] == "start" and (flow.nearest_field(py, d["b"]) or [0, 0, 0])[2] == "end" for _, d in cmps)
     sets_last = any(s["k"] == "assign" and lib.place_fields(s["dst"])[-1:] == [("opening_hours::schedule::IntoIter", "IntoIter", "last_end")] and (flow.nearest_field(py, s["rv"]["op"]) or [0, 0, 0])[2] == "end" for _, s in py.stmts() if s["k"] == "assign" and s["rv"]["k"] == "use")
     r6.check(ok and sets_last, {"fn": py.id, "assert": "start < end", "progress": "last_end <- value.range.end"}, "C14.R6:pre_yield-body", "pre_yield no longer asserts start < end or no longer records the end", lib.where_of(py))
+
+    # R7 -------------------------------------------------------------------------------------
+    r7 = res.rule("C14.R7", "ranges enter a schedule only through the two builders that re-establish its invariant: vectors of periods are mutated only inside from_ranges (sort, merge) and insert (on the vectors it builds); addition only pops periods off the schedule being added and hands each one to insert")
+    MUT = re.compile(r"alloc::vec::Vec::<T(, A)?>::(push|append|extend\w*|insert|remove|retain\w*|truncate|drain|swap_remove|pop|clear|dedup\w*|split_off|resize\w*)$|Extend<.*>>::extend|<impl \[T\]>::(sort\w*|reverse|swap|rotate\w*)$")
+    SCH = "opening_hours::schedule::Schedule::"
+    n_mut = 0
+    for f in prog.fns.values():
+        if f.crate != lib.OH or f.from_expansion:
+            continue
+        root = f
+        while root.kind == "Closure" and root.parent in prog.fns:
+            root = prog.fns[root.parent]
+        for bb, t in f.calls():
+            nm = flow.call_name(t)
+            if not MUT.search(nm) or "opening_hours::schedule::TimeRange" not in (t["callee"].get("path_args") or ""):
+                continue
+            n_mut += 1
+            op = nm.split("::")[-1]
+            recv = flow.shape(f, t["args"][0], depth=5)
+            ok = root.id in (SCH + "from_ranges", SCH + "insert") or (root.id == SCH + "addition" and op == "pop" and recv == "p2.inner")
+            r7.check(ok, {"fn": root.id.split("::")[-1], "mutation": op}, "C14.R7:%s:%s" % (root.id, op),
+                     "%s applies `%s` to a vector of periods (%s): ranges must be overlaid through Schedule::insert, which cuts and merges what they overlap" % (root.id, op, recv[:80]), lib.where_of(f, t))
+    add = prog.require_fn(SCH + "addition")
+    ins = [t for _, t in add.calls() if flow.call_name(t) == SCH + "insert"]
+    ok = len(ins) == 1 and re.fullmatch(r"Vec::pop\(p2\.inner\)@Some\.0", flow.shape(add, ins[0]["args"][1], depth=5)) is not None and flow.shape(add, ins[0]["args"][0], depth=4) == "p1"
+    r7.check(ok, {"fn": add.id, "overlays": "self.insert(popped period)"}, "C14.R7:addition", "addition does not overlay each popped period with self.insert", lib.where_of(add))
+    r7.floor(6)
 
     # W --------------------------------------------------------------------------------------
     witness.run_doctests(ctx, prog, res, "C14.W", "outside the crate a Schedule cannot be built from raw ranges nor its vector reached; twins compile", "c14", floor=4)
